@@ -6,6 +6,7 @@ CONSTANTS
   MaxVer = 3
   MaxKills = 2
   MaxRuns = 4
+  Caches = TRUE
   Variant = "code"
 INVARIANTS TypeOK C24_ReportedMeansEqual NoTornReported MarkedWhileDirty
 CHECK_DEADLOCK FALSE
